@@ -204,15 +204,18 @@ var reportLangs = []string{"en", "ja", "und", "fr", "de-CH", "zh-Hant-TW", "ko",
 func runC17(r *Run) int {
 	r.CleanOut()
 	st := &c17stats{neighbour: map[string]int64{}, unknown: map[string]bool{}}
-	variants := r.Pick(3, 12)
+	variants := r.Pick(6, 24)
 	r.Parallel(2*nBase3, 8, func(w *W, idx int) {
 		rng := r.Rng(uint64(idx) + 1)
 		for k := 0; k < variants; k++ {
 			v := newV3(idx/nBase3, idx%nBase3)
-			randOptional3(&v, spec.LEnv, rng)
-			respell(&v, spec.LEnv, rng)
-			for level := 0; level < 3; level++ {
-				s := render3(&v, level, nil)
+			// the vector's own level cycles through base / temporal / environmental, so that reports of a
+			// higher level are also built for vectors that carry none of that level's metrics
+			vl := (k + idx) % 3
+			randOptional3(&v, vl, rng)
+			respell(&v, vl, rng)
+			for level := vl; level < 3; level++ {
+				s := render3(&v, vl, nil)
 				o, err, pan := lib.Decode(lib.Kind3(level), s, false)
 				if err != nil || pan != nil || o.IsNil() {
 					w.Count("valid_vector_not_decoded")
@@ -266,7 +269,7 @@ func runC17(r *Run) int {
 	if r.Counter("valid_vector_not_decoded") > 0 {
 		r.Inconclusive("%d valid vectors were not decoded", r.Counter("valid_vector_not_decoded"))
 	}
-	return r.Finish("all 2 x 2,592 base vectors with seeded temporal/environmental extensions, decoded at the base, temporal and environmental decoder, x report level x {English, Japanese, one of und/fr/de-CH/zh-Hant-TW/ko/enm/jam, default}; every exported field of the three report structs is enumerated by reflection (embedded reports included, i.e. shadowed fields through their full path) and compared with the harness's wiring table (field -> metric / level / names function): Version, per-level Vector == that level's Encode(), score fields == FormatFloat(level score), severity fields == that level's severity name, titles and value names through the names package applied to the field's own metric in the requested language; distinct non-trivial = distinct (vector, language, level) reports",
+	return r.Finish("all 2 x 2,592 base vectors, each as a base-only, a temporal-level and an environmental-level vector (seeded optional metrics; variants cycle through the three), decoded at every admitting decoder, x report level x {English, Japanese, one of und/fr/de-CH/zh-Hant-TW/ko/enm/jam, default}; every exported field of the three report structs is enumerated by reflection (embedded reports included, i.e. shadowed fields through their full path) and compared with the harness's wiring table (field -> metric / level / names function): Version, per-level Vector == that level's Encode(), score fields == FormatFloat(level score), severity fields == that level's severity name, titles and value names through the names package applied to the field's own metric in the requested language; distinct non-trivial = distinct (vector, language, level) reports",
 		false, int64(r.SetSize("reports")), 30000, 20000, TrustedBase)
 }
 
